@@ -141,6 +141,23 @@ pub trait Source {
     fn ask(&mut self, layer: Layer, arg: &Q) -> Result<Option<Outcome>, Stop>;
 }
 
+/// Sub-calls whose outcome is CERTAIN (probability one) given their exact argument: a uniform draw below 1,
+/// Bernoulli(0), Bernoulli(1), Bernoulli(exp(-0)). Making or omitting such a call (e.g. skipping the final
+/// `exp(-(gamma - floor(gamma)))` trial when gamma is an integer) does not change any output probability, so
+/// the conformance oracle must not distinguish code that makes them from code that does not: both the
+/// reference trace and the observed trace leave them out (they are answered with the certain outcome without
+/// consuming a scripted outcome). The TOP call of an exploration is never elided, so the bodies are still
+/// exercised on these arguments directly.
+pub fn certain_outcome(layer: Layer, arg: &Q) -> Option<Outcome> {
+    match layer {
+        Layer::UniformBelow if arg.denom().is_one() && arg.numer().is_one() => Some(Outcome::Unsigned(BigUint::zero())),
+        Layer::Bernoulli if arg.is_zero() => Some(Outcome::Bool(false)),
+        Layer::Bernoulli if arg.numer() == arg.denom() => Some(Outcome::Bool(true)),
+        Layer::BernoulliExp1 | Layer::BernoulliExp if arg.is_zero() => Some(Outcome::Bool(true)),
+        _ => None,
+    }
+}
+
 /// The reference algorithms.
 pub struct Model<'a, S: Source> {
     pub src: &'a mut S,
@@ -157,17 +174,25 @@ pub struct Model<'a, S: Source> {
     pub gauss_t: Option<Q>,
     pub steps: usize,
     pub cap: usize,
+    /// Leave certain-outcome sub-calls out of the trace (see `certain_outcome`). Off only for the raw
+    /// byte-tape differential, where the reference has to consume the tape exactly like the code.
+    pub elide_certain: bool,
 }
 
 impl<'a, S: Source> Model<'a, S> {
     pub fn new(src: &'a mut S, sign_first: bool) -> Self {
-        Model { src, trace: Vec::new(), record: true, sign_first, gauss_t: None, steps: 0, cap: 2_000_000 }
+        Model { src, trace: Vec::new(), record: true, sign_first, gauss_t: None, steps: 0, cap: 2_000_000, elide_certain: true }
     }
 
     fn enter(&mut self, layer: Layer, arg: &Q) -> Result<Option<Outcome>, Stop> {
         self.steps += 1;
         if self.steps > self.cap {
             return Err(Stop::StepCap);
+        }
+        if self.elide_certain && self.steps > 1 {
+            if let Some(o) = certain_outcome(layer, arg) {
+                return Ok(Some(o));
+            }
         }
         let out = self.src.ask(layer, arg)?;
         if self.record {
@@ -537,12 +562,17 @@ pub struct TapeSrc<'a> {
     pub tape: &'a [u8],
     pub pos: usize,
     pub draws: u64,
+    /// A draw below 1 is answered with 0 without touching the tape (normalised mode, see part 6).
+    pub skip_trivial: bool,
 }
 
 impl Source for TapeSrc<'_> {
     fn ask(&mut self, layer: Layer, arg: &Q) -> Result<Option<Outcome>, Stop> {
         if layer != Layer::UniformBelow {
             return Ok(None);
+        }
+        if self.skip_trivial && arg.numer().is_one() {
+            return Ok(Some(Outcome::Unsigned(BigUint::zero())));
         }
         self.draws += 1;
         match tape_uniform_below(self.tape, &mut self.pos, arg.numer()) {
